@@ -38,12 +38,40 @@ RULE = ("call histories drawn from a grammar: Integrate(k) with k in 0..remainin
         "INITIAL_SIZE in {1,2,3,5,8,10000}; both altitude modes; ~40 % of the increment tables store their labelled "
         "columns in a permuted order (half of those with an unrelated extra column), ~40 % of the histories supply all or a "
         "random subset of their pvas as int64 Series of whole numbers, half spell with_altitude as numpy.bool_ or int "
-        "(labels and values define the meaning: the model is unchanged); increments with both branches of "
+        "(labels and values define the meaning: the model is unchanged); the time axis is float seconds, float seconds + 1e9, "
+        "int64 ms, int64 ns ~1.7e18 or int32 ticks (index values and dtype compared exactly); increments with both branches of "
         "mat_from_rotvec; thorough adds every history of <= 5 ops over {I0,I1,I2,I3,Pnext,Pforeign,S} at "
         "capacity 2 (2D) and 3 (3D), <= 4 ops for the other two mode/capacity pairs.  A case is distinct by (mode, capacity, op sequence); non-trivial if it "
         "integrates at least one increment")
 
-LABEL = 0.25                      # model time k : Z  <->  index label k * 0.25 (exact in binary64)
+# model time k : Z  <->  index label lab(d, k); the time axis comes in several dtypes / magnitudes
+TIME_AXES = ['float64 seconds', 'float64 seconds + 1e9 (GPS/UNIX)', 'int64 milliseconds', 'int64 nanoseconds ~1.7e18',
+             'int32 ticks']
+
+
+def lab(d, k):
+    """the index label (a python / numpy scalar of the history's time axis) of model time k"""
+    t = d.get('tax', 0)
+    if t == 0:
+        return float(k) * 0.25
+    if t == 1:
+        return 1e9 + float(k) * 0.25
+    if t == 2:
+        return 1_700_000_000_000 + 250 * int(k)
+    if t == 3:
+        return 1_700_000_000_000_000_123 + 250_000_001 * int(k)      # > 2**53, odd: not representable in float64
+    return np.int32(1000 + 250 * int(k))
+
+
+def lab_index(d, ks):
+    dt = {0: 'float64', 1: 'float64', 2: 'int64', 3: 'int64', 4: 'int32'}[d.get('tax', 0)]
+    return pd.Index([lab(d, k) for k in ks], dtype=dt)
+
+
+def _py(x):
+    return x.item() if isinstance(x, np.generic) else x
+
+
 INC_COLS = ['dt', 'theta_x', 'theta_y', 'theta_z', 'dv_x', 'dv_y', 'dv_z']
 CAPS = [1, 2, 3, 5, 8, 10000]
 EXTRA_COL = 'temperature'
@@ -88,7 +116,8 @@ def make_data(h):
             order = order[1:] + order[:1]
         if int(h['cols']) % 2:                # odd: additionally an unrelated column somewhere
             order.insert(int(rc.randint(0, 8)), EXTRA_COL)
-    return dict(t0=t0, table=table, labels=labels, pvas=pv, cols=TRAJECTORY_COLS, ipva=ipva, order=order)
+    return dict(t0=t0, table=table, labels=labels, pvas=pv, cols=TRAJECTORY_COLS, ipva=ipva, order=order,
+                tax=int(h.get('tax', 0)))
 
 
 def int_pvas(h):
@@ -108,7 +137,7 @@ def alt_value(h):
 
 def inc_frame(d, ids):
     df = pd.DataFrame(d['table'][list(ids)].reshape(-1, 7),
-                      index=[d['labels'][i] * LABEL for i in ids], columns=INC_COLS)
+                      index=lab_index(d, [d['labels'][i] for i in ids]), columns=INC_COLS)
     if d['order'] != list(INC_COLS):
         if EXTRA_COL in d['order']:
             df[EXTRA_COL] = 20.5
@@ -117,7 +146,7 @@ def inc_frame(d, ids):
 
 
 def inc_series(d, i):
-    s = pd.Series(d['table'][i].copy(), index=INC_COLS, name=d['labels'][i] * LABEL)
+    s = pd.Series(d['table'][i].copy(), index=INC_COLS, name=lab(d, d['labels'][i]))
     if d['order'] != list(INC_COLS):
         if EXTRA_COL in d['order']:
             s[EXTRA_COL] = 20.5
@@ -125,11 +154,11 @@ def inc_series(d, i):
     return s
 
 
-def pva_series(d, k, label):
+def pva_series(d, k, label, name=None):
     vals = d['pvas'][k].copy()
     if k in d['ipva']:
         vals = vals.astype(np.int64)
-    return pd.Series(vals, index=d['cols'], name=label * LABEL)
+    return pd.Series(vals, index=d['cols'], name=lab(d, label) if name is None else name)
 
 
 # ---------------------------------------------------------------------------
@@ -182,8 +211,9 @@ def gen_history(rng, force=None):
     u = rng.random()                           # none / all / a random mix of int64 and float pvas
     ipva = force.get('ipva', 0 if u < 0.6 else ((1 << npva) - 1 if u < 0.75 else rng.randrange(1, 1 << npva)))
     flag = force.get('flag', rng.choice([0, 0, 1, 2]))
+    tax = force.get('tax', rng.choice([0, 0, 1, 2, 3, 3, 4]))
     return dict(alt=bool(alt), cap=int(cap), seed=rng.randrange(2 ** 30), n=n, nf=nf, npva=npva, ops=ops,
-                cols=int(cols), ipva=ipva, flag=int(flag))
+                cols=int(cols), ipva=ipva, flag=int(flag), tax=int(tax))
 
 
 def exhaustive_histories(cap, alt, maxlen=5):
@@ -203,11 +233,11 @@ def exhaustive_histories(cap, alt, maxlen=5):
                     ops.append(['S', 1])
             sc = sum(combo) + ln
             yield dict(alt=alt, cap=cap, seed=1000 * cap + 17 * ln + sum(combo), n=n, nf=1, npva=2,
-                       ops=ops + [['G'], ['T']], cols=(100 + sc) if sc % 3 == 0 else 0, ipva=sc % 4, flag=sc % 3)
+                       ops=ops + [['G'], ['T']], cols=(100 + sc) if sc % 3 == 0 else 0, ipva=sc % 4, flag=sc % 3, tax=sc % 5)
 
 
 def hist_key(h):
-    return (h['alt'], h['cap'], bool(h.get('cols')), h.get('ipva', 0), h.get('flag', 0),
+    return (h['alt'], h['cap'], bool(h.get('cols')), h.get('ipva', 0), h.get('flag', 0), h.get('tax', 0),
             tuple(tuple(o) for o in h['ops']))
 
 
@@ -246,7 +276,7 @@ def instrumented(cap, log):
 
 
 def _row(series):
-    return (float(series.name), np.array(series.values, dtype=float))
+    return (_py(series.name), np.array(series.values, dtype=float))
 
 
 def run_real(h, d, deep=True):
@@ -262,13 +292,14 @@ def run_real(h, d, deep=True):
                 if o[0] == 'I':
                     ids = list(range(cursor, cursor + o[1]))
                     cursor += o[1]
-                    before = (float(it.trajectory.index[-1]), it.trajectory.values[-1].copy(),
+                    before = (_py(it.trajectory.index[-1]), it.trajectory.values[-1].copy(),
                               len(it.trajectory))
                     ret = it.integrate(inc_frame(d, ids))
-                    out['obs'].append(('F', [float(x) for x in ret.index], np.array(ret.values, dtype=float)))
+                    out['obs'].append(('F', [_py(x) for x in ret.index], np.array(ret.values, dtype=float),
+                                       str(ret.index.dtype)))
                     out['extra'].append(dict(before=before, after_len=len(it.trajectory),
                                              tail=it.trajectory.values[-(len(ids) + 1):].copy(),
-                                             labels=[d['labels'][i] * LABEL for i in ids]))
+                                             labels=[_py(lab(d, d['labels'][i])) for i in ids]))
                 elif o[0] == 'P':
                     ex = {}
                     if deep:
@@ -290,15 +321,15 @@ def run_real(h, d, deep=True):
                     out['obs'].append(('R',) + _row(it.get_pva()))
                     out['extra'].append(dict(last=_row(it.trajectory.iloc[-1])))
                 elif o[0] == 'T':
-                    out['obs'].append(('T', float(it.get_time())))
-                    out['extra'].append(dict(last=float(it.trajectory.index[-1])))
+                    out['obs'].append(('T', _py(it.get_time())))
+                    out['extra'].append(dict(last=_py(it.trajectory.index[-1])))
                 elif o[0] == 'S':
                     ret = it.set_pva(pva_series(d, o[1], -7))
                     out['obs'].append(('U', ret))
                     out['extra'].append({})
                 else:
                     raise ValueError(o)
-            out.update(index=[float(x) for x in it.trajectory.index],
+            out.update(index=[_py(x) for x in it.trajectory.index], index_dtype=str(it.trajectory.index.dtype),
                        values=np.array(it.trajectory.values, dtype=float),
                        columns=list(it.trajectory.columns),
                        cap=len(it.lla), caps=(len(it.lla), len(it.velocity_n), len(it.mat_nb)),
@@ -335,7 +366,7 @@ def statement_failures(h, d, real):
     # (1) per supply segment: the rows equal ONE integrate call on a fresh integrator started from
     #     the supplied state (default capacity); a later set_pva replaces the segment's last row
     exp_idx, exp_val = [], []
-    label = d['t0'] * LABEL
+    label = lab(d, d['t0'])
     segs = segments(h)
     log = []
     dc = dict(d, ipva=set(), order=list(INC_COLS))
@@ -344,21 +375,33 @@ def statement_failures(h, d, real):
             for k, (pid, ids, _) in enumerate(segs):
                 # the reference is always given in the canonical representation (float64 pva, documented
                 # column order): labels and values define the meaning, not dtype or storage order
-                p = pva_series(dc, pid, label / LABEL)
+                p = pva_series(dc, pid, None, name=label)
                 f = strapdown.Integrator(p, with_altitude=h['alt'])
                 f.integrate(inc_frame(dc, ids))
-                idx = [float(x) for x in f.trajectory.index]
+                idx = [_py(x) for x in f.trajectory.index]
                 val = np.array(f.trajectory.values, dtype=float)
                 if k + 1 < len(segs):
-                    label = idx[-1]
+                    label = f.trajectory.index[-1]
                     idx, val = idx[:-1], val[:-1]
                 exp_idx += idx
                 exp_val.append(val)
     except Exception as e:
         return [f"single-shot integration raised {type(e).__name__}: {e}"]
     exp_val = np.vstack(exp_val)
-    if real['index'] != exp_idx:
-        fails.append(f"time index {real['index']} != start time followed by every increment time once {exp_idx}")
+    want = pd.Index([lab(d, d['t0'])])
+    cursor = 0
+    for o in h['ops']:
+        if o[0] == 'I':
+            want = want.append(inc_frame(d, range(cursor, cursor + o[1])).index)
+            cursor += o[1]
+    want_idx = [_py(x) for x in want]
+    if real['index'] != want_idx or real['index'] != exp_idx:
+        fails.append(f"time index {real['index']} != start time followed by every increment time once {want_idx}")
+    elif real['index_dtype'] != str(want.dtype):
+        fails.append(f"time index has dtype {real['index_dtype']}, the start time followed by the increment times "
+                     f"has dtype {want.dtype}")
+    if fails:
+        pass
     elif not same(real['values'], exp_val):
         bad = [i for i in range(len(exp_idx)) if not same(real['values'][i], exp_val[i])]
         fails.append(f"trajectory rows {bad} differ bitwise from single-shot integration since the last supplied state "
@@ -377,12 +420,12 @@ def statement_failures(h, d, real):
             elif not same(ob[2], ex['tail']) or ex['after_len'] != bn + o[1]:
                 fails.append(f"op {j} integrate: returned rows are not the rows it appended")
         elif o[0] == 'P' and ex:
-            lab, row = ex['next_row']
+            nlab, row = ex['next_row']
             if not ex['unchanged']:
                 fails.append(f"op {j} predict changed the trajectory or the valid buffer prefix")
-            if ob[1] != lab or not same(ob[2], row) or ex['clone_len'][1] != ex['clone_len'][0] + 1:
+            if ob[1] != nlab or not same(ob[2], row) or ex['clone_len'][1] != ex['clone_len'][0] + 1:
                 fails.append(f"op {j} predict returned ({ob[1]}, {ob[2].tolist()}) but integrating that increment "
-                             f"appends ({lab}, {row.tolist()})")
+                             f"appends ({nlab}, {row.tolist()})")
         elif o[0] == 'G':
             if ob[1] != ex['last'][0] or not same(ob[2], ex['last'][1]):
                 fails.append(f"op {j} get_pva is not the last trajectory row")
@@ -452,7 +495,7 @@ def shrink(h, pred=None, budget=400):
             if pred(c):
                 h, changed = normalise(c), True
                 break
-    for key in ('cols', 'ipva', 'flag'):
+    for key in ('cols', 'ipva', 'flag', 'tax'):
         if h.get(key):
             c = copy.deepcopy(h)
             c[key] = 0
@@ -569,8 +612,8 @@ def numeric_mismatches(h, d, real, traj, obs, buf):
     ev = Evaluator(d)
     bad = []
     same = lambda a, b: np.asarray(a, dtype=float).tobytes() == np.asarray(b, dtype=float).tobytes()
-    if real['index'] != [t * LABEL for t, _ in traj]:
-        bad.append(f"index {real['index']} vs model {[t * LABEL for t, _ in traj]}")
+    if real['index'] != [_py(lab(d, t)) for t, _ in traj]:
+        bad.append(f"index {real['index']} vs model {[_py(lab(d, t)) for t, _ in traj]}")
     else:
         for k, (t, p) in enumerate(traj):
             if not same(real['values'][k], ev.p(p)):
@@ -583,16 +626,16 @@ def numeric_mismatches(h, d, real, traj, obs, buf):
         if ro[0] != mo[0]:
             bad.append(f"op {j}: kind {ro[0]} vs {mo[0]}")
         elif ro[0] == 'F':
-            if ro[1] != [t * LABEL for t, _ in mo[1]] or \
+            if ro[1] != [_py(lab(d, t)) for t, _ in mo[1]] or \
                     any(not same(ro[2][k], ev.p(p)) for k, (_, p) in enumerate(mo[1])):
                 bad.append(f"op {j}: returned frame differs from the model's")
         elif ro[0] == 'R':
-            if ro[1] != mo[1] * LABEL or not same(ro[2], ev.p(mo[2])):
-                bad.append(f"op {j}: returned row ({ro[1]}, {ro[2].tolist()}) vs model ({mo[1] * LABEL}, "
+            if ro[1] != _py(lab(d, mo[1])) or not same(ro[2], ev.p(mo[2])):
+                bad.append(f"op {j}: returned row ({ro[1]}, {ro[2].tolist()}) vs model ({_py(lab(d, mo[1]))}, "
                            f"{ev.p(mo[2]).tolist()})")
         elif ro[0] == 'T':
-            if ro[1] != mo[1] * LABEL:
-                bad.append(f"op {j}: get_time {ro[1]} vs {mo[1] * LABEL}")
+            if ro[1] != _py(lab(d, mo[1])):
+                bad.append(f"op {j}: get_time {ro[1]} vs {_py(lab(d, mo[1]))}")
         elif ro[0] == 'U':
             if ro[1] is not None:
                 bad.append(f"op {j}: set_pva returned {ro[1]!r}")
@@ -856,6 +899,10 @@ def corpus(modes=(True, False)):
                         ops=[['S', 1], ['G'], ['P', 0], ['I', 2], ['S', 2], ['I', 1], ['G']]))
         out.append(dict(alt=alt, cap=2, seed=17, n=3, nf=1, npva=3, cols=0, ipva=0b110, flag=2,
                         ops=[['G'], ['S', 1], ['G'], ['I', 1], ['S', 2], ['P', 1], ['I', 2], ['T']]))
+        # time axes: GPS-like float seconds, int64 ms, int64 ns beyond 2**53, int32 ticks
+        for tax in (1, 2, 3, 4):
+            out.append(dict(alt=alt, cap=2, seed=20 + tax, n=4, nf=1, npva=2, cols=0, ipva=0, flag=0, tax=tax,
+                            ops=[['T'], ['P', 0], ['I', 1], ['T'], ['P', 4], ['I', 0], ['S', 1], ['I', 2], ['G'], ['T']]))
     return out
 
 
@@ -1099,6 +1146,7 @@ def distribution(results):
         modes['int64 whole-number pvas: all'] += 1 if len(ip) == h['npva'] else 0
         modes['int64 whole-number pvas: mixed with float'] += 1 if 0 < len(ip) < h['npva'] else 0
         modes['with_altitude spelled ' + ['bool', 'numpy.bool_', 'int'][h.get('flag', 0)]] += 1
+        modes['time axis ' + TIME_AXES[h.get('tax', 0)]] += 1
         grow[min(x['growth'], 4)] += 1
         for o in h['ops']:
             ops[o[0]] += 1
@@ -1270,7 +1318,7 @@ def replay(obj):
         mo = model_output('c02r', [coq_case(h, d, real, traj, obs, buf)])[0]
         print("model (Coq) trajectory provenance:")
         for t, p in (mo['traj'] if mo else []):
-            print("  ", t * LABEL, p)
+            print("  ", _py(lab(d, t)), p)
         print("model capacity:", mo and mo['cap'])
         if mo and real['ok']:
             nm = numeric_mismatches(h, d, real, mo['traj'], mo['obs'], [b for b in mo['buf'] if b != ('X',)])
